@@ -5,8 +5,8 @@
    Format numbers: 0 RGBA8, 2 RGBA5551, 3 RGB565, 4 RGBA4, 5 LA8, 7 L8, 8 A8 (listed_color_format), 12 ETC1, 13 ETC1A4.
    Every statement quantifies over the arithmetic mode m (Checked = overflow-checked build, Wrapping = release). *)
 From Coq Require Import List NArith ZArith Bool Lia.
-From Mila Require Import Lib.Bytes Lib.Machine Model.Pixel Model.PixelSpec Model.Etc1 Proofs.TexFinite Proofs.PixelProofs
-  Proofs.Etc1Proofs Proofs.PaletteProofs Proofs.PixelAssembly.
+From Mila Require Import Lib.Bytes Lib.Machine Model.Pixel Model.PixelSpec Model.Etc1 Model.ColorFormat Proofs.TexFinite Proofs.PixelProofs
+  Proofs.Etc1Proofs Proofs.PaletteProofs Proofs.PixelAssembly Proofs.ColorFormatProofs.
 Import ListNotations.
 Local Open Scope N_scope.
 
@@ -61,6 +61,14 @@ Theorem C19_etc1_exact : forall alphas pixels, etc1_in_range pixels = true ->
   decode_block alphas pixels = etc1_spec alphas pixels.
 Proof. exact decode_block_exact. Qed.
 
+(* ETC1A4: for every texel of every block (in range or not) alpha = 17 * its nibble of the alpha word whatever the colour
+   word says, and r, g, b do not depend on the alpha word: an all-zero (or any other) alpha word never changes the colour *)
+Theorem C19_etc1a4_alpha_colour_independent : forall a p x y, x < 4 -> y < 4 ->
+  nth 3 (nth (N.to_nat (4 * y + x)) (decode_block a p) ZERO_PX) 0 = 17 * field a (4 * (4 * x + y)) 4 /\
+  forall a', firstn 3 (nth (N.to_nat (4 * y + x)) (decode_block a p) ZERO_PX) =
+             firstn 3 (nth (N.to_nat (4 * y + x)) (decode_block a' p) ZERO_PX).
+Proof. exact etc1a4_alpha_colour_independent. Qed.
+
 (* F15: the expression before the repair (`r + complement(..)` in u8) panics in a checked build on an in-range block
    with a negative delta, and equals the repaired one in a wrapping build *)
 Theorem C19_etc1_F15_checked : etc1_in_range F15_BLOCK = true /\ block_colors_prefix Checked F15_BLOCK = Panic POverflow.
@@ -112,6 +120,27 @@ Theorem C19_decode_indexed : forall data pal_bytes, lenN pal_bytes mod 4 = 0 ->
   decode_indexed_ci8 data pal_bytes = Ok (concat (map (fun i => firstn 4 (skipn (N.to_nat (4 * i)) pal_bytes)) data)).
 Proof. exact decode_indexed_spec. Qed.
 
+(* the public ColorFormat::decode / decode_indexed (Model/ColorFormat.v; 0 RGBA8, 1 RGB5A3, 2 CI8, other Unrecognized) are the two
+   functions above plus their error branches; GameCube RGBA8 is copied through *)
+Theorem C19_colorformat_decode_rgb5a3 : forall data, cf_decode 1 data =
+  match rgb5a3_decode data with Ok px => CfOk (flatten px) | _ => CfErr UnalignedData end.
+Proof. exact cf_decode_rgb5a3. Qed.
+Theorem C19_colorformat_decode_rgba8 : forall data, lenN data mod 4 = 0 -> cf_decode 0 data = CfOk data.
+Proof. exact cf_decode_rgba8. Qed.
+Theorem C19_colorformat_decode_indexed : forall data pal,
+  cf_decode_indexed 2 data pal =
+  match decode_indexed_ci8 data pal with Ok b => CfOk b | Err EOob => CfErr OutOfBoundsIndex | _ => CfErr UnalignedData end.
+Proof. exact cf_decode_indexed_ci8. Qed.
+Theorem C19_colorformat_decode_errors : forall fmt data,
+  (2 < fmt -> cf_decode fmt data = CfErr UnsupportedFormat) /\
+  (fmt = 2 -> cf_decode fmt data = CfErr NoPalette) /\
+  (fmt < 2 -> lenN data mod cf_bytes_per_pixel fmt <> 0 -> cf_decode fmt data = CfErr UnalignedData).
+Proof. exact cf_decode_errors. Qed.
+Theorem C19_colorformat_indexed_errors : forall fmt data pal,
+  (2 < fmt -> cf_decode_indexed fmt data pal = CfErr UnsupportedFormat) /\
+  (fmt < 2 -> cf_decode_indexed fmt data pal = CfErr NotIndexed).
+Proof. exact cf_decode_indexed_errors. Qed.
+
 (* CI8 images in 8x4 blocks of ANY size (every width and height >= 1, not only 1..64), cropped to the stated
    dimensions (the CI8 path of Tpl::extract_textures: RGB5A3 palette, align, block_to_sequential, crop,
    decode_indexed): pixel (x, y) is the decoded palette entry selected by the block-data byte at
@@ -162,6 +191,9 @@ Proof. split; vm_compute; reflexivity. Qed.
 (* a differential block with a negative delta is in range *)
 Example C19_ex_etc_block : etc1_in_range F15_BLOCK = true /\ etc1_diff F15_BLOCK = true /\ signed3 (field F15_BLOCK 56 3) = (-1)%Z.
 Proof. vm_compute. repeat split. Qed.
+(* an all-zero alpha word: transparent texels keep their colour (255, 255, 255 here: individual mode, base 15, +2) *)
+Example C19_ex_etc_zero_alpha : nth 0 (decode_block 0 (15 * 2 ^ 60 + 15 * 2 ^ 52 + 15 * 2 ^ 44)) ZERO_PX = [255; 255; 255; 0].
+Proof. vm_compute. reflexivity. Qed.
 Example C19_ex_etc_image : lenN (ex_payload 64) = 8 * 8 / 16 * etc_block_bytes true /\
   is_ok (decode_pixel_data Wrapping (ex_payload 64) 8 8 13) = true.
 Proof. split; vm_compute; reflexivity. Qed.
